@@ -15,7 +15,7 @@
                           Y4 status:=Suspended; caller:=nil | Y5 unlock g | Y6 unlock c
                           Y7 send c.ch | Y8 recv g.ch
    end by g             : E0 c:=caller | E1 lock g | E2 lock c (checks) | E3 close g.ch
-                          E4 status:=Dead; caller:=nil | E5 pending __close handlers (Lua!)
+                          E4 status:=Dead; caller:=nil | E5 pending __close handlers (Lua!; discarded if killed)
                           E6 closeErr:=.. | E6r ReleaseBytes | E7 send c.ch | (E8 ReleaseBytes, old order only)
                           E9 unlock c | E10 unlock g
    Start body           : S0 recv g.ch, then Lua; deferred recover => end
@@ -103,6 +103,7 @@ Definition st_eqb (a b : st) : bool :=
   match a, b with OK, OK | Suspended, Suspended | Dead, Dead => true | _, _ => false end.
 
 Definition is_err (m : msg) : bool := match m with MErr _ => true | _ => false end.
+Definition is_term (m : msg) : bool := match m with MTerm => true | _ => false end.
 
 (* where the receiver of a message sent by end/yield continues *)
 Definition after_recv (c : nat) (m : msg) : pcT :=
@@ -124,17 +125,17 @@ Definition step (cf : cfg) (s : state) (a : action) : option state :=
   | Lua, LFinish m => Some (setpc s g (if Nat.eqb g 0 then MainDone else E0 m))
   | Lua, LStatus t => if t <? n s then Some s else None
   (* ---- Resume / Close *)
-  | R1 k t v, LStep 1 => lock s g t (R2 k t v)
-  | R2 k t v, LStep 2 =>
+  | R1 k t v, LStep cd => if negb (cd =? 1) then None else lock s g t (R2 k t v)
+  | R2 k t v, LStep cd => if negb (cd =? 2) then None else
       if st_eqb (status (th s t)) Suspended then Some (setpc s g (R3 k t v))
       else unlock s g t Lua
-  | R3 k t v, LStep 3 =>
+  | R3 k t v, LStep cd => if negb (cd =? 3) then None else
       if st_eqb (status (th s g)) OK then lock s g g (R4 k t v)
       else if is_free s g then Some (setpc s g Panicked) else None
-  | R4 k t v, LStep 4 =>
+  | R4 k t v, LStep cd => if negb (cd =? 4) then None else
       Some (setpc (setth s t (set_sc (th s t) OK (Some g))) g (R5 k t v))
-  | R5 k t v, LStep 5 => unlock s g t (R6 k t v)
-  | R6 k t v, LStep 6 => unlock s g g (R7 k t v)
+  | R5 k t v, LStep cd => if negb (cd =? 5) then None else unlock s g t (R6 k t v)
+  | R6 k t v, LStep cd => if negb (cd =? 6) then None else unlock s g g (R7 k t v)
   | R7 k t v, LRdv =>
       if closed (th s t) then Some (setpc s g Panicked) else
       match pc s t with
@@ -143,19 +144,19 @@ Definition step (cf : cfg) (s : state) (a : action) : option state :=
       | _ => None
       end
   (* ---- Yield *)
-  | Y1 v, LStep 11 => lock s g g (Y2 v)
-  | Y2 v, LStep 12 =>
+  | Y1 v, LStep cd => if negb (cd =? 11) then None else lock s g g (Y2 v)
+  | Y2 v, LStep cd => if negb (cd =? 12) then None else
       if negb (st_eqb (status (th s g)) OK) then Some (setpc s g Panicked) else
       match caller (th s g) with
       | None => unlock s g g Lua
       | Some c => Some (setpc s g (Y3 c v))
       end
-  | Y3 c v, LStep 13 =>
+  | Y3 c v, LStep cd => if negb (cd =? 13) then None else
       if st_eqb (status (th s c)) OK then lock s g c (Y4 c v)
       else if is_free s c then Some (setpc s g Panicked) else None
-  | Y4 c v, LStep 14 => Some (setpc (setth s g (set_sc (th s g) Suspended None)) g (Y5 c v))
-  | Y5 c v, LStep 15 => unlock s g g (Y6 c v)
-  | Y6 c v, LStep 16 => unlock s g c (Y7 c v)
+  | Y4 c v, LStep cd => if negb (cd =? 14) then None else Some (setpc (setth s g (set_sc (th s g) Suspended None)) g (Y5 c v))
+  | Y5 c v, LStep cd => if negb (cd =? 15) then None else unlock s g g (Y6 c v)
+  | Y6 c v, LStep cd => if negb (cd =? 16) then None else unlock s g c (Y7 c v)
   | Y7 c v, LRdv =>
       if closed (th s c) then Some (setpc s g Panicked) else
       match pc s c with
@@ -163,40 +164,42 @@ Definition step (cf : cfg) (s : state) (a : action) : option state :=
       | _ => None
       end
   (* ---- end *)
-  | E0 m, LStep 20 =>
+  | E0 m, LStep cd => if negb (cd =? 20) then None else
       match caller (th s g) with
       | None => Some (setpc s g Panicked)
       | Some c => Some (setpc s g (E1 c m))
       end
-  | E1 c m, LStep 21 => lock s g g (E2 c m)
-  | E2 c m, LStep 22 =>
+  | E1 c m, LStep cd => if negb (cd =? 21) then None else lock s g g (E2 c m)
+  | E2 c m, LStep cd => if negb (cd =? 22) then None else
       if st_eqb (status (th s g)) OK && st_eqb (status (th s c)) OK then lock s g c (E3 c m)
       else if is_free s c then Some (setpc s g Panicked) else None
-  | E3 c m, LStep 23 => Some (setpc (setth s g (set_closed (th s g))) g (E4 c m))
-  | E4 c m, LStep 24 => Some (setpc (setth s g (set_sc (th s g) Dead None)) g (E5 c m))
-  | E5 c m, LStep 25 => Some (setpc s g (E6 c m))
+  | E3 c m, LStep cd => if negb (cd =? 23) then None else Some (setpc (setth s g (set_closed (th s g))) g (E4 c m))
+  | E4 c m, LStep cd => if negb (cd =? 24) then None else Some (setpc (setth s g (set_sc (th s g) Dead None)) g (E5 c m))
+  | E5 c m, LStep cd => if negb (cd =? 25) then None else Some (setpc s g (E6 c m))
+  (* since fix 8db1ed8 a thread killed by a context termination (m = MTerm) discards its pending
+     handlers (closeStack.truncate(0)) instead of running them: no Lua code runs in E5 then *)
   | E5 c m, LHResume t =>
-      if e5_coops cf && (t <? n s) then Some (setpc s g (X1 t c m)) else None
-  | E5 c m, LHYield => if e5_coops cf then Some (setpc s g (XY1 c m)) else None
-  | X1 t c m, LStep 41 => lock s g t (X2 t c m)
-  | X2 t c m, LStep 42 =>
+      if e5_coops cf && negb (is_term m) && (t <? n s) then Some (setpc s g (X1 t c m)) else None
+  | E5 c m, LHYield => if e5_coops cf && negb (is_term m) then Some (setpc s g (XY1 c m)) else None
+  | X1 t c m, LStep cd => if negb (cd =? 41) then None else lock s g t (X2 t c m)
+  | X2 t c m, LStep cd => if negb (cd =? 42) then None else
       if st_eqb (status (th s t)) Suspended then Some (setpc s g (X3 t c m))
       else unlock s g t (E5 c m)
-  | X3 t c m, LStep 43 => lock s g g (Panicked)     (* caller.mux.Lock() with caller = g: g holds it *)
-  | XY1 c m, LStep 44 => lock s g g (Panicked)      (* t.mux.Lock() in Yield: g holds it *)
-  | E6 c m, LStep 26 =>
+  | X3 t c m, LStep cd => if negb (cd =? 43) then None else lock s g g (Panicked)     (* caller.mux.Lock() with caller = g: g holds it *)
+  | XY1 c m, LStep cd => if negb (cd =? 44) then None else lock s g g (Panicked)      (* t.mux.Lock() in Yield: g holds it *)
+  | E6 c m, LStep cd => if negb (cd =? 26) then None else
       Some (setpc (setth s g (set_cerr (th s g) (is_err m))) g
                   (if rel_after_send cf then E7 c m else E6r c m))
-  | E6r c m, LStep 27 => Some (setpc s g (E7 c m))
+  | E6r c m, LStep cd => if negb (cd =? 27) then None else Some (setpc s g (E7 c m))
   | E7 c m, LRdv =>
       if closed (th s c) then Some (setpc s g Panicked) else
       match pc s c with
       | R8 _ => Some (setpc (setpc s g (if rel_after_send cf then E8 c else E9 c)) c (after_recv c m))
       | _ => None
       end
-  | E8 c, LStep 28 => Some (setpc s g (E9 c))
-  | E9 c, LStep 29 => unlock s g c E10
-  | E10, LStep 30 => unlock s g g Done
+  | E8 c, LStep cd => if negb (cd =? 28) then None else Some (setpc s g (E9 c))
+  | E9 c, LStep cd => if negb (cd =? 29) then None else unlock s g c E10
+  | E10, LStep cd => if negb (cd =? 30) then None else unlock s g g Done
   | _, _ => None
   end.
 
